@@ -61,10 +61,13 @@ do_mhinit(const cmd *c)
 {
         int sid = (int) cmd_i(c, 1);
         struct mhs *s = &ms[sid];
-        if (s->used)
+        int newkind = !strcmp(c->t[2], "sha1") ? 0 : !strcmp(c->t[2], "sha256") ? 1 : 2;
+        /* re-initialising a live object in place is legal: sometimes keep the storage (and whatever the last stream left in it) */
+        int keep = s->used && s->kind == newkind && obj_reuse();
+        if (s->used && !keep)
                 gbuf_free(&s->ctx);
         s->used = 1;
-        s->kind = !strcmp(c->t[2], "sha1") ? 0 : !strcmp(c->t[2], "sha256") ? 1 : 2;
+        s->kind = newkind;
         snprintf(s->fam, sizeof s->fam, "%s", c->t[3]);
         uint64_t seed = ((uint64_t) (uint32_t) cmd_i(c, 4) << 32) | (uint32_t) cmd_i(c, 5);
         const char *k = kname[s->kind];
@@ -87,8 +90,10 @@ do_mhinit(const cmd *c)
                 s->f_upd = need("_%s_update_%s", k, s->fam);
                 s->f_fin = need("_%s_finalize_%s", k, s->fam);
         }
-        gbuf_alloc_obj(&s->ctx, ksize[s->kind], kalign[s->kind]);
-        hidden_fill(s->ctx.p, s->ctx.len, 51);
+        if (!keep) {
+                gbuf_alloc_obj(&s->ctx, ksize[s->kind], kalign[s->kind]);
+                hidden_fill(s->ctx.p, s->ctx.len, 51);
+        }
         obs o;
         uint64_t a[2] = { (uint64_t) s->ctx.p, seed };
         vc_begin();
@@ -221,7 +226,8 @@ do_rhinit(const cmd *c)
 {
         int sid = (int) cmd_i(c, 1);
         struct rhs *s = &rs[sid];
-        if (s->used)
+        int keep = s->used && obj_reuse();
+        if (s->used && !keep)
                 gbuf_free(&s->st);
         s->used = 1;
         snprintf(s->fam, sizeof s->fam, "%s", c->t[2]);
@@ -232,8 +238,10 @@ do_rhinit(const cmd *c)
         void *f_init = need("%srolling_hash2_init", pre);
         s->f_reset = need("%srolling_hash2_reset", pre);
         s->f_run = need("%srolling_hash2_run", pre);
-        gbuf_alloc_obj(&s->st, sizeof(struct isal_rh_state2), (unsigned) _Alignof(struct isal_rh_state2));
-        hidden_fill(s->st.p, s->st.len, 61);
+        if (!keep) {
+                gbuf_alloc_obj(&s->st, sizeof(struct isal_rh_state2), (unsigned) _Alignof(struct isal_rh_state2));
+                hidden_fill(s->st.p, s->st.len, 61);
+        }
         obs o;
         uint64_t a[2] = { (uint64_t) s->st.p, w };
         vc_begin();
